@@ -16,10 +16,11 @@ EXTENDS Integers, Sequences, TLC, Json
 Trace == ndJsonDeserialize("c20.ndjson")
 NProc == Trace[1].nproc            \* first line is a header record
 Proc == 1..NProc
-VARIABLES rc, writer, l
+VARIABLES rc, writer, wrote, l
 INSTANCE PanLockset
 
 Ev == Trace[l]
+(* Ev.var: the variable a statement touches (the part of the label "symHashTable@writeSymHash" before the function name) *)
 TraceInit == LInit /\ l = 2
 Consume == l <= Len(Trace) /\ l' = l + 1
 TraceNext ==
@@ -30,10 +31,10 @@ TraceNext ==
        [] Ev.ev = "AutoLock"    -> WLock(p)
        [] Ev.ev = "AutoUnlock"  -> WUnlock(p)
        [] Ev.ev = "AutoRead"    -> Read(p)
-       [] Ev.ev = "AutoWrite"   -> Write(p)
+       [] Ev.ev = "AutoWrite"   -> WriteTab(p, Ev.var)
        [] Ev.ev \in {"Unsync", "ResultDiffers"} -> FALSE
        [] OTHER -> FALSE
-TraceSpec == TraceInit /\ [][TraceNext]_<<rc, writer, l>>
+TraceSpec == TraceInit /\ [][TraceNext]_<<rc, writer, wrote, l>>
 ExclusionInv == Exclusion
 Accepted == l = Len(Trace) + 1 => PrintT("V accepted")
 =============================================================================
